@@ -11,6 +11,7 @@ package main
 // inlined; the call/return matching of paths is exact.
 
 import (
+	"fmt"
 	"go/constant"
 	"go/token"
 	"go/types"
@@ -44,6 +45,8 @@ type c14View struct {
 	roots []*ssa.Function // additional entry points (AddRoot)
 	// cur: during walk, the point whose instruction is being offered to the target predicate
 	cur c14Pt
+	// liCut: located instructions added to a cut (CutLI)
+	liCut map[*cut]map[c14LI]bool
 }
 
 type c14Pt struct {
@@ -291,7 +294,7 @@ func (v *c14View) walk(starts []c14Pt, target func(ssa.Instruction) bool, cu *cu
 					return true, in
 				}
 			}
-			if cu != nil && cu.instrs[in] {
+			if cu != nil && (cu.instrs[in] || (v.liCut != nil && v.liCut[cu][c14LI{in, pt.ctx}])) {
 				done = true
 				break
 			}
@@ -1071,4 +1074,238 @@ func (v *c14View) Weights(starts []c14Pt, weight func(ssa.Instruction) int) (max
 		first = false
 	}
 	return
+}
+
+// ---------- located instructions (context-sensitive identity) ----------
+
+// c14LI is an instruction as executed in one context of the view.  Needed when a
+// helper is shared by several sub-objects (b.items in a batch method serves
+// m.current and m.next): cuts and targets then have to tell the contexts apart.
+type c14LI struct {
+	In  ssa.Instruction
+	Ctx *c14Ctx
+}
+
+type c14CV struct {
+	V   ssa.Value
+	Ctx *c14Ctx
+}
+
+// Each visits every instruction instance of the view.
+func (v *c14View) Each(f func(li c14LI)) {
+	for _, cx := range v.ctxs {
+		for _, b := range cx.fn.Blocks {
+			for _, in := range b.Instrs {
+				f(c14LI{in, cx})
+			}
+		}
+	}
+}
+
+// CutLI adds located instructions to a cut (kept in a side table of the view).
+func (v *c14View) CutLI(cu *cut, lis ...c14LI) *cut {
+	if v.liCut == nil {
+		v.liCut = map[*cut]map[c14LI]bool{}
+	}
+	m := v.liCut[cu]
+	if m == nil {
+		m = map[c14LI]bool{}
+		v.liCut[cu] = m
+	}
+	for _, li := range lis {
+		m[li] = true
+	}
+	return cu
+}
+
+func (v *c14View) isLI(li c14LI) func(ssa.Instruction) bool {
+	return func(in ssa.Instruction) bool { return in == li.In && v.cur.ctx == li.Ctx }
+}
+
+func (v *c14View) afterLI(li c14LI) []c14Pt {
+	return []c14Pt{{ctx: li.Ctx, b: li.In.Block(), i: instrIndex(li.In) + 1}}
+}
+
+func (v *c14View) MustPassLI(to c14LI, cu *cut) bool {
+	r, _ := v.walk(v.entry(), v.isLI(to), cu, false)
+	return !r
+}
+
+func (v *c14View) ReachLI(from, to c14LI, cu *cut) bool {
+	r, _ := v.walk(v.afterLI(from), v.isLI(to), cu, false)
+	return r
+}
+
+func (v *c14View) EdgeReachLI(e Edge, to c14LI, cu *cut) bool {
+	r, _ := v.walk(v.atBlock(e.To), v.isLI(to), cu, false)
+	return r
+}
+
+// PathIn renders the access path of an address / pointer value as seen in
+// context cx, relative to the parameters of the view's root ("p0.current.items").
+// Parameters of inlined functions are replaced by the argument of this call.
+func (v *c14View) PathIn(val ssa.Value, cx *c14Ctx) string {
+	for depth := 0; depth < 12; depth++ {
+		switch u := val.(type) {
+		case *ssa.FieldAddr:
+			st := u.X.Type().Underlying().(*types.Pointer).Elem().Underlying().(*types.Struct)
+			return v.PathIn(u.X, cx) + "." + st.Field(u.Field).Name()
+		case *ssa.Parameter:
+			idx := -1
+			for i, p := range cx.fn.Params {
+				if p == u {
+					idx = i
+				}
+			}
+			if idx < 0 {
+				return "?" + u.Name()
+			}
+			if cx.parent == nil || cx.virtual || cx.site == nil {
+				if bs := v.bind[u]; len(bs) == 1 {
+					return "?bound"
+				}
+				return fmt.Sprintf("p%d", idx)
+			}
+			if idx >= len(cx.site.Common().Args) {
+				return "?" + u.Name()
+			}
+			val, cx = cx.site.Common().Args[idx], cx.parent
+			continue
+		case *ssa.UnOp:
+			if u.Op == token.MUL {
+				if cellOf(u) != nil {
+					rs := Roots(u)
+					if len(rs) == 1 && rs[0] != ssa.Value(u) {
+						val = rs[0]
+						continue
+					}
+				}
+				if fv, ok := u.X.(*ssa.FreeVar); ok && cx.parent != nil {
+					if cell := c14FreeVarAlloc(fv); cell != nil {
+						if sts := c14CellStores(cell); len(sts) == 1 {
+							val, cx = sts[0].Val, cx.parent
+							continue
+						}
+					}
+				}
+				return v.PathIn(u.X, cx) + "*"
+			}
+		case *ssa.Alloc:
+			return "new:" + u.Name()
+		case *ssa.ChangeType:
+			val = u.X
+			continue
+		}
+		break
+	}
+	return "?"
+}
+
+// LeavesIn is Leaves with exact contexts: a parameter of an inlined function
+// denotes the argument of this very call; a result of an inlined call the
+// returns of that very expansion.
+func (v *c14View) LeavesIn(val ssa.Value, cx *c14Ctx) []c14CV {
+	var out []c14CV
+	seen := map[c14CV]bool{}
+	var rec func(x ssa.Value, cx *c14Ctx, depth int)
+	rec = func(x ssa.Value, cx *c14Ctx, depth int) {
+		for _, r := range Roots(x) {
+			k := c14CV{r, cx}
+			if seen[k] {
+				continue
+			}
+			seen[k] = true
+			if depth > 12 {
+				out = append(out, k)
+				continue
+			}
+			switch u := r.(type) {
+			case *ssa.Parameter:
+				if cx.parent != nil && !cx.virtual && cx.site != nil {
+					idx := -1
+					for i, p := range cx.fn.Params {
+						if p == u {
+							idx = i
+						}
+					}
+					if idx >= 0 && idx < len(cx.site.Common().Args) {
+						rec(cx.site.Common().Args[idx], cx.parent, depth+1)
+						continue
+					}
+				}
+			case *ssa.Call:
+				if k := cx.kids[u]; k != nil && !k.virtual && k.fn.Signature.Results().Len() == 1 {
+					for _, ret := range Returns(k.fn) {
+						rec(ret.Results[0], k, depth+1)
+					}
+					continue
+				}
+			case *ssa.Extract:
+				if call, ok := u.Tuple.(*ssa.Call); ok {
+					if k := cx.kids[call]; k != nil && !k.virtual {
+						for _, ret := range Returns(k.fn) {
+							if u.Index < len(ret.Results) {
+								rec(ret.Results[u.Index], k, depth+1)
+							}
+						}
+						continue
+					}
+				}
+			}
+			out = append(out, k)
+		}
+	}
+	rec(val, cx, 0)
+	return out
+}
+
+// LoadPathsIn: the access paths val may have been loaded from, as seen in cx
+// ("" entries for leaves that are not loads of a path).
+func (v *c14View) LoadPathsIn(val ssa.Value, cx *c14Ctx) []string {
+	var out []string
+	for _, l := range v.LeavesIn(val, cx) {
+		u, ok := l.V.(*ssa.UnOp)
+		if !ok || u.Op != token.MUL {
+			out = append(out, "")
+			continue
+		}
+		out = append(out, v.PathIn(u.X, l.Ctx))
+	}
+	return out
+}
+
+// IsLoadOfPathIn: every leaf of val (in cx) is a load of path.
+func (v *c14View) IsLoadOfPathIn(val ssa.Value, cx *c14Ctx, path string) bool {
+	ps := v.LoadPathsIn(val, cx)
+	for _, p := range ps {
+		if p != path {
+			return false
+		}
+	}
+	return len(ps) > 0
+}
+
+// PathStores / PathLoads: the instances that store to / load from path.
+func (v *c14View) PathStores(path string) []c14LI {
+	var out []c14LI
+	v.Each(func(li c14LI) {
+		if st, ok := li.In.(*ssa.Store); ok {
+			if _, isFA := st.Addr.(*ssa.FieldAddr); isFA && v.PathIn(st.Addr, li.Ctx) == path {
+				out = append(out, li)
+			}
+		}
+	})
+	return out
+}
+
+func (v *c14View) PathLoads(path string) []c14LI {
+	var out []c14LI
+	v.Each(func(li c14LI) {
+		if u, ok := li.In.(*ssa.UnOp); ok && u.Op == token.MUL {
+			if _, isFA := u.X.(*ssa.FieldAddr); isFA && v.PathIn(u.X, li.Ctx) == path {
+				out = append(out, li)
+			}
+		}
+	})
+	return out
 }
